@@ -211,6 +211,20 @@ def oracle_polluted(line, out):
     why = oracle(rest, out)
     return f"after in-place edits of strings handed out by earlier calls: {why}" if why else None
 
+# ---- the same questions on collections whose members were ASSEMBLED through the in-place / derived-object API (templates whose
+# copies were edited, block-wise set_substring, tensor, products ...) instead of parsed from text
+ASSEMBLED = "graph-queries:members-assembled-through-the-in-place-API"
+def assembled_graph_handle(line):
+    import pollute, random as _r
+    from paulie.common.pauli_string_collection import PauliStringCollection
+    r = _r.Random("asm:" + line)
+    old = impl_graph.coll
+    impl_graph.coll = lambda arg: PauliStringCollection([pollute.assembled_string(x, r) for x in impl_graph.strs(arg)])
+    try:
+        return impl_graph.handle(line)
+    finally:
+        impl_graph.coll = old
+
 def build_streams(rng, tier):
     th = tier == "thorough"
     L = []
@@ -264,6 +278,7 @@ def build_streams(rng, tier):
         Stream("commutants-and-commutator-graphs", S, h, oracle, tag=tag, nontrivial=lambda l, o: "E=-" not in o),
         Stream("graph-queries-after-edit-histories", H, IC.handle, oracle_hist, tag=lambda l, o: "hist" + (":err" if "!" in o else ""),
                nontrivial=lambda l, o: any(x.split(":")[0] in ("rep", "con", "rem", "del", "exp", "sort") for x in l.split(" ")[2].split(";"))),
+        Stream(ASSEMBLED, L[:: (4 if th else 8)] + S[:: (3 if th else 6)], assembled_graph_handle, oracle, tag=tag, model=False),
         Stream("queries-after-in-place-edits-of-handed-out-strings", PO, polluted_handle, oracle_polluted, model=False,
                tag=lambda l, o: "polluted:" + l.split(" ")[2] + (":err" if o.startswith("!") else "")),
     ] + _extra().extra_streams(rng, tier)
@@ -290,7 +305,7 @@ def replay(path):
         out = IC.handle(line); why = oracle_hist(line, out)
         print("line:", line); print("implementation:", out[:500]); print("oracle:", why or "holds")
         return 1 if why else 0
-    out = impl_graph.handle(line); why = oracle(line, out)
+    out = (assembled_graph_handle if ASSEMBLED in str(r.get("stream", "")) else impl_graph.handle)(line); why = oracle(line, out)
     print("line:", line); print("implementation:", out[:500]); print("model:", run_model([line])[0][:500]); print("oracle:", why or "holds")
     return 1 if why else 0
 
